@@ -410,6 +410,8 @@ func GenerateImpl(seed uint64, root string) *Module {
 			b.WriteString(fmt.Sprintf("%s\ntype AliasT%d = %s\n\n", ann, k, target))
 		}
 	}
+	// an annotated blank type: there is no such name in the package scope
+	b.WriteString("// @implements LocalI\ntype _ struct{ Z int }\n\n")
 	udir := root + "/" + map[bool]string{true: "ifcuser", false: "user"}[uname == "ifc"]
 	m.Files[udir+"/u.go"] = b.String()
 	// a second file of the same package that does NOT import the interface packages: qualifiers bound only in
